@@ -118,6 +118,7 @@ class Report:
         self.solver_s = 0.0
         self.findings = []
         self.undecided = []
+        self.unavail = []
         self.functions = []
         self.samples = []
         self.assumptions = []
@@ -151,6 +152,12 @@ class Report:
     def undecided_ob(self, oid, why):
         self.obligations += 1
         self.undecided.append((oid, why))
+
+    def unavailable(self, oid, why):
+        """an *additional* proved part cannot be generated for the current shape of the code (engine limit: construct outside the modelled
+        subset, e.g. after a harmless restructuring).  Nothing is claimed for it: it is not an obligation, it is reported (stdout and
+        evidence) and the verdict of the check rests on the parts that did run.  Never used for a part that is the check's only decider."""
+        self.unavail.append((oid, why))
 
     # --- bounded grade ---
     def bounded_count(self, key, n=1):
@@ -212,6 +219,7 @@ class Report:
             "samples": self.samples[:12] or ["(none)"],
             "explanation": explanation,
             "undecided": [list(u) for u in self.undecided[:20]],
+            "proved_part_unavailable": [list(u) for u in self.unavail[:20]],
             "known_findings_seen": sorted(seen_ids),
             "new_violations": [f.obligation for f in new_violations][:50],
         }
@@ -243,6 +251,8 @@ class Report:
             json.dump(ev, fp, indent=1, default=str)
         for l in lines:
             print(l)
+        for oid, why in self.unavail:
+            print(f"PROVED-PART-UNAVAILABLE {oid}: {why[:300]} (nothing claimed for it; the verdict rests on the parts that ran)")
         for l in vio_lines:
             print(l)
         print(f"[{self.prop}] obligations={self.obligations} discharged={self.discharged} "
